@@ -1,10 +1,41 @@
-"""C01 — HTTP/1 forwarding is framing-consistent: no request or response desync.  (T2 part; T1 below)"""
+"""C01 — HTTP/1 forwarding is framing-consistent: no request or response desync.
+
+T1 (machine-checked contracts on the real functions, all inputs):
+  parse_content_length, parse_transfer_encoding      exact accepted sets and results (RFC 9110 §8.6, RFC 9112 §6.1/§7)
+  validate_headers (+ .name_pattern)                 returns normally => the framing fields are unambiguous (<=1 TE, <=1 CL, not both,
+                                                     CL digits, TE a known coding list, TE only in HTTP/1.1, request TE ends in chunked,
+                                                     no TE on 1xx/204), every field name passed the token test; and conversely
+  expected_http_body_size                            for validated heads the result encodes exactly RFC 9112 §6.3 rules 1-8
+  make_body_reader                                   None -> ChunkedReader, -1 -> Http10Reader, n -> ContentLengthReader(n)
+  Http1Client.send / Http1Server.send                head = start-line CRLF (name ": " value CRLF)* CRLF, body data framed per the
+                                                     *forwarded* headers, terminator iff chunked (and the message can have a body)
+  HttpStream.check_invalid / validate_request        a head that fails validation is answered with an error, never sent upstream/downstream
+  te_classes.substring_lemma                         the facts about the coding-list patterns used above
+T2 (bounded): the real HttpLayer driven sans-io over enumerated request/response heads x bodies x pipelining x addon edits x
+  deliveries; the octets written to the origin / client are read by an independent RFC 9112 reader (props/http1ref.py) and
+  compared with the flows recorded at the request/response hooks.
+"""
 from pyvc.api import *
 from props.prelude import *
 
 CLAIM = "other"
-EXPLANATION = "draft"
-ASSUMPTIONS = []
+EXPLANATION = ("T1 proves, for all inputs of each function, the framing decision (validate_headers, parse_content_length, parse_transfer_encoding, "
+               "expected_http_body_size against RFC 9112 6.3), the reader selection, the re-framing done by Http1Client.send / Http1Server.send and the "
+               "reject-don't-forward behaviour of check_invalid. The end-to-end statement (an independent reader of the forwarded octets reads exactly the "
+               "recorded flows) is the composition of these with h11's line splitter and body readers and with _read_headers / the request-line parser; that "
+               "composition is only checked bounded (T2) against an executable RFC 9112 reader. Seven defect classes of the unchanged tree are recorded as "
+               "known findings (KF-C01-1..7), each with a narrow input class outside which the obligations are proved / the bounded checks pass.")
+ASSUMPTIONS = [
+    "h11 (ReceiveBuffer.maybe_extract_lines, ChunkedReader, ContentLengthReader, Http10Reader) is third-party: in T1 its constructors are ghost records, its behaviour is exercised only in T2",
+    "bytes.lower()/str.lower()/str.upper() are uninterpreted (idempotent, length-preserving) functions; the only further fact used is: for ASCII s and a lower-case pattern R, lower(s) in R <=> s in case-insensitive R (trusted, stated in pyvc/libx_http1.py)",
+    "the three compiled validation regexes are translated to SMT regular expressions from CPython's own parse tree (pyvc/libx_http1.py: regex_language; Python's `$` = end or before a final newline); re.sub('[\\t ]*,[\\t ]*', ',', s) is uninterpreted with the exact preimages of the eight literals",
+    "UTF-8 decoding is an uninterpreted function that is the identity on ASCII and maps non-ASCII input to non-ASCII text",
+    "inside validate_headers / expected_http_body_size / send, parse_content_length and parse_transfer_encoding are replaced by their own contracts (deterministic named predicates CLacc / TEc / TEp); int() of a non-digit accepted value (the trailing-newline class KF-C01-5) is unconstrained",
+    "'%x' % n is an uninterpreted function of n (chunk-size formatting)",
+    "header sets made invalid by an addon after validation are outside the send contracts (they assume a field list with the shape validate_headers guarantees: one unrelated field plus at most one framing field)",
+    "field-list contracts are proved for <= 3 fields (validate_headers) resp. <= 1 field in the quick tier / <= 2 in the thorough tier (expected_http_body_size); field names and values are fully symbolic",
+    "Layer.handle_event, Http1Connection.mark_done are replaced by ghost trace items in the send contracts (mark_done has its own contract in C02)",
+]
 
 HOST = b"example.com"
 
@@ -170,6 +201,7 @@ KF_CRLF = "KF-C01-1"   # CR / LF / NUL (obs-fold, bare CR, NUL) inside field val
 KF_STRIP = "KF-C01-2"  # VT / FF / CR next to OWS are stripped from field values before validation (malformed CL/TE accepted)
 KF_NOBODY = "KF-C01-3"  # body framing (chunk terminator, addon-set content) is written for responses that cannot have a body
 KF_INTERIM = "KF-C01-4"  # an interim 1xx response of the origin is recorded and relayed as the final response
+KF_METHOD = "KF-C01-6"  # methods are compared case-insensitively: 'head' is framed like HEAD
 
 _FRAMING_NAMES = (b"content-length", b"transfer-encoding")
 
@@ -195,6 +227,9 @@ def input_classes(raws, responses, addon_label, req_methods):
                 v = v.strip(b" \t")
                 if n.strip().lower() in _FRAMING_NAMES and v != v.strip():
                     ks.add(KF_STRIP)
+    for m_ in req_methods:
+        if m_ != m_.upper() and m_.upper() in (b"HEAD", b"CONNECT"):
+            ks.add(KF_METHOD)
     for k, (r, _) in enumerate(responses):
         m = re.match(rb"HTTP/\d\.\d (\d\d\d)", r)
         if not m:
@@ -278,17 +313,17 @@ def check_exchange(b, ex, raws, label, inp, resp_ambiguous=None, classes=frozens
     pages = [m for m in downs if is_error_page(m)]
     recd = [f for f in flows if "response" in f.hooks]
     if d["state"] != "clean":
-        fail("c01.downstream.complete_and_valid", f"{d['state']} ({d['why']}); octets to client {ex.to_client()!r}", [KF_NOBODY, KF_INTERIM])
+        fail("c01.downstream.complete_and_valid", f"{d['state']} ({d['why']}); octets to client {ex.to_client()!r}", [KF_NOBODY, KF_INTERIM, KF_METHOD])
     else:
         if len(relayed) != len(recd):
-            fail("c01.downstream.same_number", f"reader sees {len(relayed)} relayed responses {relayed!r}; flows with response hook: {len(recd)} {[f.snaps['response'] for f in recd]!r}", [KF_INTERIM, KF_NOBODY])
+            fail("c01.downstream.same_number", f"reader sees {len(relayed)} relayed responses {relayed!r}; flows with response hook: {len(recd)} {[f.snaps['response'] for f in recd]!r}", [KF_INTERIM, KF_NOBODY, KF_METHOD])
         else:
             for m, f in zip(relayed, recd):
                 s = f.snaps["response"]
                 if (m.version, m.status) != (s.http_version, s.status_code) or m.reason != s.reason:
                     fail("c01.downstream.status_line", f"reader {m!r} vs recorded {s!r}", [KF_INTERIM])
                 if m.body != (s.content or b""):
-                    fail("c01.downstream.body", f"reader body {m.body!r} vs recorded {s.content!r}", [KF_NOBODY, KF_INTERIM])
+                    fail("c01.downstream.body", f"reader body {m.body!r} vs recorded {s.content!r}", [KF_NOBODY, KF_INTERIM, KF_METHOD])
                 if m.flags - {"no_sp_after_status"}:
                     fail("c01.downstream.head_unambiguous", f"relayed head needs leniencies {sorted(m.flags)}: {m!r}", [KF_CRLF])
                 if list(m.fields) != list(s.fields):
@@ -396,8 +431,8 @@ def bounded(tier, seed):
         raws = [mk_request(b"POST", target=b"http://example.com/r%d" % i, lines=l, body=bd) for i, (_, l, bd) in enumerate(p)]
         cases.append(("B3:" + "+".join(x[0] for x in p), raws, [RESP_OK] * 5, "none", None))
     # (C) response variants x request method x request version
-    for (lab, raw, close), m, v in itertools.product(response_variants(), [b"GET", b"HEAD", b"POST"], versions):
-        if tier == "quick" and m == b"POST":
+    for (lab, raw, close), m, v in itertools.product(response_variants(), [b"GET", b"HEAD", b"POST", b"head"], versions):
+        if tier == "quick" and (m == b"POST" or (m == b"head" and v != b"HTTP/1.1")):
             continue
         lines, body = ([b"Content-Length: 3"], b"abc") if m == b"POST" else ([], b"")
         amb = response_verdict(raw, m)
@@ -604,7 +639,7 @@ def summarise_value_parsers(vc):
         vc.assume(Implies(acc, And(is_ascii(vc, value), Or(rfc, endswith(value, "\n" if as_str else b"\n")))))
         if vc.branch(acc):
             n = vc.fresh_int(f"cl_value{counter[0]}")
-            vc.assume(Implies(rfc, n == str_to_int(vc, value)))
+            vc.assume(Implies(rfc, And(n == str_to_int(vc, value), n >= 0)))   # decimal value of a digit string
             return n
         vc.raise_(ValueError, "invalid content-length header")
 
@@ -816,3 +851,366 @@ def s_ebs(vc):
         vc.ensure("rule6.request_without_body", And(not isnone(r), r == 0) if not isnone(r) else False)
     else:
         vc.ensure_kf("rule8.response_until_close", And(not isnone(r), r == -1) if not isnone(r) else False, "KF-C01-6", lenient_method)
+
+
+# ---------------------------------------------------------------------------------------------------------------------
+# make_body_reader: the h11 reader chosen for a framing decision
+
+H1 = "mitmproxy.proxy.layers.http._http1:"
+
+
+@scenario("make_body_reader", functions=[H1 + "make_body_reader"])
+def s_make_body_reader(vc):
+    import h11._readers as HR
+    kind = vc.case("size", ["chunked", "until_close", "length"])
+    made = []
+
+    def reader(name):
+        def summ(v, *a):
+            made.append((name, a))
+            return v.ghost("reader", name, *a)
+        return summ
+
+    # h11's reader classes are third-party: their constructors are replaced by ghost records (which class, which argument)
+    for nm in ("ChunkedReader", "Http10Reader", "ContentLengthReader"):
+        vc.summary(H1 + nm, reader(nm))                 # the name _http1.py calls (patched natively)
+        vc.summary("h11._readers:" + nm, reader(nm))    # the defining module (symbolic dispatch)
+    n = vc.sym_int("n", lo=0)
+    arg = None if kind == "chunked" else (-1 if kind == "until_close" else n)
+    out = vc.call(H1 + "make_body_reader", arg)
+    vc.ensure("no_exception", out.ok)
+    vc.ensure("exactly_one_reader", len(made) == 1)
+    if len(made) != 1:
+        return
+    name, a = made[0]
+    if kind == "chunked":
+        vc.ensure("chunked.reader", name == "ChunkedReader" and len(a) == 0)
+    elif kind == "until_close":
+        vc.ensure("until_close.reader", name == "Http10Reader" and len(a) == 0)
+    else:
+        vc.ensure("length.reader", name == "ContentLengthReader" and len(a) == 1)
+        if len(a) == 1:
+            vc.ensure("length.exact", a[0] == n)
+
+
+# ---------------------------------------------------------------------------------------------------------------------
+# Http1Client.send / Http1Server.send: re-framing of forwarded messages
+
+H1C = H1 + "Http1Client"
+H1S = H1 + "Http1Server"
+EVT = "mitmproxy.proxy.layers.http._events:"
+CRLF = b"\r\n"
+SEND_OPTS = dict(exact_regex=True, lower_literals=None)
+
+
+def wire_fields(names, vals):
+    r = b""
+    for nm, v in zip(names, vals):
+        r = r + nm + b": " + v + CRLF
+    return r
+
+
+def hexlen(vc, n):
+    """lower-case hexadecimal chunk-size (RFC 9112 §7.1: 1*HEXDIG) — natively %x, in proof mode the engine's uninterpreted %x"""
+    if vc.mode == "native":
+        return b"%x" % n
+    import z3
+    from pyvc import lib
+    return SBytes(lib.uf("hex_lower", z3.IntSort(), z3.StringSort())(lift(n).t))
+
+
+def framing_fields(vc, framing, te_value):
+    """field list of a forwarded message for a framing class: TE (value symbolic, of the given class) / CL / neither, plus one
+    unrelated field in front"""
+    x_name, x_val = vc.sym_bytes("xn"), vc.sym_bytes("xv")
+    vc.assume(And(lower_(vc, x_name) != b"transfer-encoding", lower_(vc, x_name) != b"content-length"))
+    if framing in ("chunked", "te_plain"):
+        return [x_name, b"Transfer-Encoding"], [x_val, te_value]
+    if framing == "cl":
+        clv = vc.sym_bytes("clv")
+        # passes validation (parse_content_length's contract; the trailing-newline class KF-C01-5 is recorded there)
+        vc.assume(And(cl_accepted(vc, clv), in_re(vc, clv, CL_RFC_B)))
+        return [x_name, b"Content-Length"], [x_val, clv]
+    return [x_name], [x_val]
+
+
+def mark_done_ghost(vc):
+    def md(v, self_, **kw):
+        return v.gen([v.ghost("mark_done", tuple(sorted((k, bool(x) if not is_sym(x) else x) for k, x in kw.items())))])
+    vc.summary(H1 + "Http1Connection.mark_done", md)
+    vc.summary(H1S + ".mark_done", md)
+
+
+def lower_s(vc, s):
+    if vc.mode == "native":
+        return s.lower()
+    import z3
+    from pyvc import lib
+    return type(lift(s))(lib.uf("lower", z3.StringSort(), z3.StringSort())(lift(s).t))
+
+
+def te_value_of_class(vc, framing):
+    """a symbolic Transfer-Encoding value of the class (named pattern sets TEc / TEp): final coding chunked / other known
+    coding list.  Facts about the pattern sets used here are proved in scenario te_classes.substring_lemma:
+    values in TEc contain 'chunked' after case folding, values in TEp do not; both are non-empty ASCII."""
+    v = vc.sym_bytes("te")
+    c, p = te_class(vc, v, abstract=True)
+    vc.assume(c if framing == "chunked" else p)
+    vc.assume(And(is_ascii(vc, v), len_(v) > 0))
+    vc.assume(Implies(c, contains(lower_s(vc, v), b"chunked")))
+    vc.assume(Implies(p, Not(contains(lower_s(vc, v), b"chunked"))))
+    return v
+
+
+@scenario("te_classes.substring_lemma", functions=[])
+def s_te_lemma(vc):
+    """pattern facts used by the send / mark_done contracts: for every value v in a named class,
+    lower(v) contains 'chunked' iff the class is 'final coding chunked'; v is non-empty ASCII.
+    (lower() enters through its trusted fact: lower(v) in R <=> v in case-insensitive R for ASCII v.)"""
+    v = vc.sym_bytes("v")
+    lw = lower_s(vc, v)
+    if vc.mode == "sym":
+        import z3
+        from pyvc.libx_http1 import te_preimage, rx_to_re
+        for L in TE_LITERALS:
+            rx = te_preimage(L)
+            vc.assume(SBool(z3.InRe(lw.t, rx_to_re(rx)) == z3.InRe(v.t, rx_to_re(rx, ci=True))))
+    for L in TE_LITERALS:
+        m = in_re(vc, v, te_spec_pattern(L, False))
+        vc.ensure(f"ascii_nonempty[{L}]", Implies(m, And(is_ascii(vc, v), len_(v) > 0)))
+        if L in TE_CHUNKED:
+            vc.ensure(f"contains_chunked[{L}]", Implies(m, contains(lw, b"chunked")))
+        else:
+            vc.ensure(f"no_chunked[{L}]", Implies(m, Not(contains(lw, b"chunked"))))
+    for i, a in enumerate(TE_LITERALS):
+        for b_ in TE_LITERALS[i + 1:]:
+            vc.ensure(f"disjoint[{a}|{b_}]", Not(And(in_re(vc, v, te_spec_pattern(a, False)), in_re(vc, v, te_spec_pattern(b_, False)))))
+
+
+def is_ghost(c, tag):
+    if isinstance(c, STuple):
+        return c.items[0].concrete() == tag
+    return isinstance(c, tuple) and len(c) > 0 and c[0] == tag
+
+
+@scenario("http1client.send", functions=[H1C + ".send", "mitmproxy.net.http.http1.assemble:assemble_request_head",
+                                         "mitmproxy.net.http.http1.assemble:_assemble_request_line"])
+def s_client_send(vc):
+    from props.httpstream import mk_request, mk_headers
+    framing = vc.case("framing", ["chunked", "cl", "none"])   # what a validated request can carry (TE without final chunked is refused)
+    evk = vc.case("event", ["headers", "data", "eom"])
+    form = vc.case("target", ["origin", "absolute", "connect"]) if evk == "headers" else "origin"
+    summarise_value_parsers(vc)
+    te_v = te_value_of_class(vc, framing) if framing in ("chunked", "te_plain") else None
+    names, vals = framing_fields(vc, framing, te_v)
+    method = b"CONNECT" if form == "connect" else vc.sym_bytes("method")
+    if form != "connect":
+        vc.assume(upper_b(vc, method) != b"CONNECT")
+    scheme, authority, path, version = vc.sym_bytes("scheme"), vc.sym_bytes("authority"), vc.sym_bytes("path"), vc.case("version", [b"HTTP/1.1", b"HTTP/1.0"])
+    if form == "origin":
+        authority = b""
+    elif form == "absolute":
+        vc.assume(len_(authority) > 0)
+    req = mk_request(vc, headers=mk_headers(vc, tuple(zip(names, vals))), method=method, scheme=scheme, authority=authority, path=path, http_version=version)
+    server = mk_server(vc, state=__import__("mitmproxy.connection", fromlist=["x"]).ConnectionState.OPEN)
+    ctx = mk_context(vc, mk_client(vc), server, mk_options(vc, validate_inbound_headers=True))
+    fresh = evk == "headers"
+    cl = vc.new(H1C, context=ctx, conn=server, stream_id=None if fresh else 1, request=None if fresh else req, response=None,
+                request_done=False, response_done=False, debug=None, _paused=None, _paused_event_queue=None)
+    mark_done_ghost(vc)
+    data = vc.sym_bytes("data")
+    if evk == "headers":
+        ev = vc.new(EVT + "RequestHeaders", stream_id=1, request=req, end_stream=vc.sym_bool("end_stream"), replay_flow=None)
+    elif evk == "data":
+        ev = vc.new(EVT + "RequestData", stream_id=1, data=data)
+    else:
+        ev = vc.new(EVT + "RequestEndOfMessage", stream_id=1)
+    out = vc.call(H1C + ".send", cl, ev)
+    vc.ensure("no_exception", out.ok)
+    if not out.ok:
+        return
+    tr = out.trace
+    sends = [c for c in tr if is_cmd(c, "SendData")]
+    vc.ensure("only_to_this_server", all(c.connection is server for c in sends))
+    chunked = framing == "chunked"
+    if evk == "headers":
+        target = authority if form == "connect" else (scheme + b"://" + authority + path if form == "absolute" else path)
+        head = method + b" " + target + b" " + version + CRLF + wire_fields(names, vals) + CRLF
+        vc.ensure("headers.one_send", len(tr) == 1 and len(sends) == 1)
+        if len(sends) == 1:
+            vc.ensure("headers.exact_head", sends[0].data == head)
+        vc.ensure("headers.request_recorded", cl.request is req and vc.eq(cl.stream_id, 1))
+    elif evk == "data":
+        if vc.branch(len_(data) == 0):
+            vc.ensure_kf("data.empty_sends_nothing", len(tr) == 0, "KF-C01-7", chunked)
+            return
+        vc.ensure("data.one_send", len(tr) == 1 and len(sends) == 1)
+        if len(sends) == 1:
+            want = hexlen(vc, len_(data)) + CRLF + data + CRLF if chunked else data
+            vc.ensure("data.framed_per_forwarded_headers", sends[0].data == want)
+    else:
+        kinds = ["ghost" if isinstance(c, (STuple, tuple)) else (c.cls.__name__ if isinstance(c, SObj) else type(c).__name__) for c in tr]
+        if chunked:
+            vc.ensure("eom.chunked_terminator_then_done", kinds == ["SendData", "ghost"])
+            if kinds[:1] == ["SendData"]:
+                vc.ensure("eom.last_chunk", tr[0].data == b"0\r\n\r\n")
+        else:
+            vc.ensure("eom.nothing_written", kinds == ["ghost"])
+        vc.ensure("eom.marks_request_done", len(tr) > 0 and is_ghost(tr[-1], "mark_done"))
+
+
+def upper_b(vc, b):
+    if vc.mode == "native":
+        return b.upper()
+    import z3
+    from pyvc import lib
+    return SBytes(lib.uf("upper", z3.StringSort(), z3.StringSort())(lift(b).t))
+
+
+@scenario("http1server.send", functions=[H1S + ".send", "mitmproxy.net.http.http1.assemble:assemble_response_head",
+                                         "mitmproxy.net.http.http1.assemble:_assemble_response_line"])
+def s_server_send(vc):
+    from props.httpstream import mk_request, mk_response, mk_headers
+    from mitmproxy.connection import ConnectionState
+    framing = vc.case("framing", ["chunked", "te_plain", "cl", "none"])
+    evk = vc.case("event", ["headers", "data", "eom"])
+    summarise_value_parsers(vc)
+    te_v = te_value_of_class(vc, framing) if framing in ("chunked", "te_plain") else None
+    names, vals = framing_fields(vc, framing, te_v)
+    method = vc.sym_bytes("method")
+    status = vc.sym_int("status", lo=100, hi=999)
+    reason = vc.sym_bytes("reason")
+    version = vc.case("version", [b"HTTP/1.1", b"HTTP/1.0"])
+    req = mk_request(vc, method=method)
+    resp = mk_response(vc, headers=mk_headers(vc, tuple(zip(names, vals))), status_code=status, http_version=version)
+    resp.data.reason = reason
+    client = mk_client(vc)
+    ctx = mk_context(vc, client, mk_server(vc), mk_options(vc, validate_inbound_headers=True))
+    fresh = evk == "headers"
+    srv = vc.new(H1S, context=ctx, conn=client, stream_id=1, request=req, response=None if fresh else resp, request_done=True,
+                 response_done=False, debug=None, _paused=None, _paused_event_queue=None)
+    mark_done_ghost(vc)
+    for lit in ("HEAD",):
+        vc.assume(upper_(vc, lit) == lit)
+    m = method_str(vc, method)
+    vc.assume(upper_(vc, upper_(vc, m)) == upper_(vc, m))
+    data = vc.sym_bytes("data")
+    if evk == "headers":
+        ev = vc.new(EVT + "ResponseHeaders", stream_id=1, response=resp, end_stream=vc.sym_bool("end_stream"))
+    elif evk == "data":
+        ev = vc.new(EVT + "ResponseData", stream_id=1, data=data)
+    else:
+        ev = vc.new(EVT + "ResponseEndOfMessage", stream_id=1)
+    out = vc.call(H1S + ".send", srv, ev)
+    vc.ensure("no_exception", out.ok)
+    if not out.ok:
+        return
+    tr = out.trace
+    sends = [c for c in tr if is_cmd(c, "SendData")]
+    vc.ensure("only_to_the_client", all(c.connection is client for c in sends))
+    chunked = framing == "chunked"
+    is_head = m == "HEAD"
+    lenient_head = And(upper_(vc, m) == "HEAD", m != "HEAD")                                        # KF-C01-6
+    bodiless_status = Or(And(status >= 100, status <= 199), status == 204, status == 304)           # RFC 9112 §6.3 rule 1
+    if evk == "headers":
+        head = version + b" " + dec_b(vc, status) + b" " + reason + CRLF + wire_fields(names, vals) + CRLF
+        vc.ensure("headers.one_send", len(tr) == 1 and len(sends) == 1)
+        if len(sends) == 1:
+            vc.ensure("headers.exact_head", sends[0].data == head)
+        vc.ensure("headers.response_recorded", srv.response is resp)
+    elif evk == "data":
+        if vc.branch(len_(data) == 0):
+            vc.ensure_kf("data.empty_sends_nothing", len(tr) == 0, "KF-C01-7", chunked)
+            return
+        if vc.branch(Or(is_head, bodiless_status)):
+            # a response that cannot have a body: no body octets may follow the head
+            vc.ensure_kf("data.nothing_for_bodiless_response", len(tr) == 0, "KF-C01-3", True)
+            return
+        vc.ensure("data.one_send", len(tr) == 1 and len(sends) == 1)
+        if len(sends) == 1:
+            want = hexlen(vc, len_(data)) + CRLF + data + CRLF if chunked else data
+            vc.ensure("data.framed_per_forwarded_headers", sends[0].data == want)
+    else:
+        kinds = ["ghost" if isinstance(c, (STuple, tuple)) else (c.cls.__name__ if isinstance(c, SObj) else type(c).__name__) for c in tr]
+        if chunked and vc.branch(Not(Or(is_head, bodiless_status))):
+            vc.ensure_kf("eom.chunked_terminator_then_done", kinds == ["SendData", "ghost"], "KF-C01-6", lenient_head)
+            if kinds[:1] == ["SendData"]:
+                vc.ensure("eom.last_chunk", tr[0].data == b"0\r\n\r\n")
+        elif chunked:
+            vc.ensure_kf("eom.nothing_written_for_bodiless_response", kinds == ["ghost"], "KF-C01-3", Not(is_head))
+        else:
+            vc.ensure("eom.nothing_written", kinds == ["ghost"])
+        vc.ensure("eom.marks_response_done", len(tr) > 0 and is_ghost(tr[-1], "mark_done"))
+
+
+def dec_b(vc, n):
+    if vc.mode == "native":
+        return b"%d" % n
+    from pyvc.lib import int_to_str
+    return SBytes(int_to_str(lift(n).t))
+
+
+# ---------------------------------------------------------------------------------------------------------------------
+# HttpStream.check_invalid / validate_request: a head that fails validation is rejected, not forwarded
+
+HTTPL = "mitmproxy.proxy.layers.http:"
+
+
+@scenario("check_invalid", functions=[HTTPL + "HttpStream.check_invalid", HTTPL + "validate_request"])
+def s_check_invalid(vc):
+    from props import httpstream as HS_
+    from mitmproxy.proxy.layers.http._events import ErrorCode
+    is_request = vc.case("direction", [True, False])
+    validation_on = vc.case("validate_inbound_headers", [True, False])
+    invalid = vc.sym_bool("headers_invalid")
+    why = vc.sym_str("why")
+    scheme = vc.case("scheme", [b"http", b"https", b"", b"ftp"]) if is_request else b"http"
+    calls = []
+
+    def vh(v, message):
+        calls.append(message)
+        if v.mode == "sym":
+            if v.branch(invalid):
+                v.raise_(ValueError, why)
+            return None
+        if invalid:
+            raise ValueError(why)
+        return None
+
+    vc.summary(HTTPL + "validate_headers", vh)                       # the name check_invalid / validate_request call
+    vc.summary("mitmproxy.net.http.validate:validate_headers", vh)   # the defining module (symbolic dispatch)
+    req = HS_.mk_request(vc, scheme=scheme)
+    resp = None if is_request else HS_.mk_response(vc)
+    st, flow, client, server = HS_.mk_stream(vc, "state_wait_for_request_headers" if is_request else "state_done",
+                                             "state_uninitialized" if is_request else "state_wait_for_response_headers",
+                                             request=req, response=resp, validate_inbound_headers=validation_on)
+    out = vc.call(HTTPL + "HttpStream.check_invalid", st, is_request)
+    vc.ensure("no_exception", out.ok)
+    if not out.ok:
+        return
+    tr = out.trace
+    kinds = HS_.kinds(tr)
+    bad_scheme = is_request and scheme == b"ftp"
+    rejected = bad_scheme or (validation_on and vc.branch(invalid))
+    vc.ensure("validated_message_is_the_flows", all(m is (req if is_request else resp) for m in calls))
+    vc.ensure("validation_runs_iff_enabled", len(calls) == (1 if (validation_on and not bad_scheme) else 0))
+    if rejected:
+        vc.ensure("rejected.returns_true", vc.eq(out.result, True))
+        vc.ensure("rejected.nothing_sent_upstream", not any(HS_.is_send(c, conn=server) for c in tr))
+        sends = [c for c in tr if HS_.is_send(c)]
+        vc.ensure("rejected.one_error_to_client", len(sends) == 1 and HS_.is_send(sends[0], "ResponseProtocolError", client))
+        if len(sends) == 1:
+            vc.ensure("rejected.code", sends[0].event.code == (ErrorCode.REQUEST_VALIDATION_FAILED if is_request else ErrorCode.RESPONSE_VALIDATION_FAILED))
+        vc.ensure("rejected.error_hook_once", kinds.count("HttpErrorHook") == 1)
+        vc.ensure("rejected.no_request_or_response_hook", "HttpRequestHook" not in kinds and "HttpResponseHook" not in kinds and "HttpResponseHeadersHook" not in kinds)
+        vc.ensure("rejected.flow_error_set", not isnone(flow.error))
+        vc.ensure("rejected.flow_not_live", vc.eq(flow.live, False))
+        vc.ensure("rejected.states_errored", HS_.state_name(vc, st.client_state) == "state_errored" and HS_.state_name(vc, st.server_state) == "state_errored")
+        if not is_request:
+            closes = [c for c in tr if is_cmd(c, "CloseConnection")]
+            vc.ensure("rejected.response.server_connection_closed", len(closes) == 1 and closes[0].connection is server)
+            vc.ensure("rejected.response.closed_before_anything_else", is_cmd(tr[0], "CloseConnection"))
+    else:
+        vc.ensure("accepted.returns_false", vc.eq(out.result, False))
+        vc.ensure("accepted.emits_nothing", len(tr) == 0)
+        vc.ensure("accepted.flow_untouched", isnone(flow.error) and vc.eq(flow.live, True))
